@@ -619,7 +619,7 @@ impl Family for Generics {
         &["C07", "C01", "C02", "C03", "C04"]
     }
     fn rule(&self) -> &'static str {
-        "32 generic templates (a two-parameter generic struct whose fields are read inside generic code at an instance with the function's parameters in the other order / shifted; a generic function calling itself with its type parameters swapped; a type parameter of a function / of a method / of an impl block that the signature never mentions (rejected, or valid); a method with a type parameter of its own inside a generic impl, at two instantiations for one receiver type; 8 where the type parameter occurs in the signature only underneath Vec / Ref / array / tuple / Opt / a generic struct / Vec[Ref[.]] / Ref[Vec[.]], each instantiated at two types; a type parameter occurring only in the result type at two instantiations agreeing on the argument-bound parameter, zero-argument generic fixed by the expected type, the same generic at (A,B) and (B,A), Vec/Ref/array element generics, id, pair, apply, Opt unwrap, generic struct with inherent method, trait dispatch through a bound at two impl types, generic calling generic at (T,T), recursive List[T], two bounds, two instances in one program, generic fn as a value, nested instantiation) x 13 type arguments {int32,bool,string,unit,(int32,bool),[int32;2],Vec[int32],Ref[int32],(int32)->int32,S,E2,Opt[int32],Opt[Opt[bool]]} (all ordered pairs for two-parameter templates in thorough, a diagonal band in quick); oracle: output = type-passing reference semantics, emitted Go valid (no type-parameter residue can survive the Go checker); plus 6 polymorphic-recursion programs (a generic function reaching itself at a doubled tuple / Vec / Opt / pair-with-int type, through a second function, through a method) which must terminate, accepted or rejected, and 2 finite chains of 12 and 40 generic functions each calling the next at a larger type, which must compile and print their length. non-trivial = instantiations at non-scalar types; distinct = distinct source text"
+        "32 generic templates (a two-parameter generic struct whose fields are read inside generic code at an instance with the function's parameters in the other order / shifted; a generic function calling itself with its type parameters swapped; a type parameter of a function / of a method / of an impl block that the signature never mentions (rejected, or valid); a method with a type parameter of its own inside a generic impl, at two instantiations for one receiver type; 8 where the type parameter occurs in the signature only underneath Vec / Ref / array / tuple / Opt / a generic struct / Vec[Ref[.]] / Ref[Vec[.]], each instantiated at two types; a type parameter occurring only in the result type at two instantiations agreeing on the argument-bound parameter, zero-argument generic fixed by the expected type, the same generic at (A,B) and (B,A), Vec/Ref/array element generics, id, pair, apply, Opt unwrap, generic struct with inherent method, trait dispatch through a bound at two impl types, generic calling generic at (T,T), recursive List[T], two bounds, two instances in one program, generic fn as a value, nested instantiation) x 13 type arguments {int32,bool,string,unit,(int32,bool),[int32;2],Vec[int32],Ref[int32],(int32)->int32,S,E2,Opt[int32],Opt[Opt[bool]]} (all ordered pairs for two-parameter templates in thorough, a diagonal band in quick); oracle: output = type-passing reference semantics, emitted Go valid (no type-parameter residue can survive the Go checker); plus 6 polymorphic-recursion programs (a generic function reaching itself at a doubled tuple / Vec / Opt / pair-with-int type, through a second function, through a method) which must terminate, accepted or rejected, and 2 finite chains of 12 and 40 generic functions each calling the next at a larger type, which must compile and print their length; 4 generic types that mention themselves at a larger instance (enum, struct, through a second type; declared and never used: must be accepted) which must terminate and, if accepted, be valid Go printing the value, 2 regular recursive types (List[T]; one with its parameters permuted) which must be accepted, and 3 associated functions of a generic impl (the impl's parameter unmentioned: rejected or valid Go; in the argument; in the result only: accepted). non-trivial = instantiations at non-scalar types; distinct = distinct source text"
     }
     fn cases(&self, tier: Tier) -> Box<dyn Iterator<Item = Value> + '_> {
         let mut v = Vec::new();
@@ -640,7 +640,10 @@ impl Family for Generics {
         }
         // specialisation must terminate (or the program be rejected): every way a generic function can
         // reach itself at a larger type; and deep but finite instantiation chains must still compile
-        for k in ["tuple-doubling", "vec-wrapping", "opt-wrapping", "pair-with-int", "mutual", "through-method", "finite-depth-12", "finite-depth-40"] {
+        for k in [
+            "tuple-doubling", "vec-wrapping", "opt-wrapping", "pair-with-int", "mutual", "through-method", "finite-depth-12", "finite-depth-40", "type-growing-enum", "type-growing-struct", "type-growing-mutual",
+            "type-growing-unused", "type-regular-recursion", "type-regular-permuting", "associated-fn-impl-param-unmentioned", "associated-fn-impl-param-in-result", "associated-fn-impl-param-in-result-only",
+        ] {
             v.push(json!({"template": "polymorphic-recursion", "a": k, "b": "int32"}));
         }
         Box::new(v.into_iter())
@@ -665,15 +668,28 @@ impl Family for Generics {
                 t.push_str(&format!("fn g{}[T](x: T) -> int32 {{ 0 }}\nfn main() {{\n    string_println(int32_to_string(g0(true)))\n}}\n", depth));
                 t
             };
-            let text_owned: String = match a {
-                "vec-wrapping" => "fn f[T](x: T, n: int32) -> int32 {\n    if n < 1 { 0 } else { let v: Vec[T] = vec_new(); 1 + f(vec_push(v, x), n - 1) }\n}\n\nfn main() {\n    string_println(int32_to_string(f(1, 3)))\n}\n".into(),
-                "opt-wrapping" => "enum Opt[T] { Non, Som(T) }\nfn f[T](x: T, n: int32) -> int32 {\n    if n < 1 { 0 } else { 1 + f(Opt::Som(x), n - 1) }\n}\n\nfn main() {\n    string_println(int32_to_string(f(1, 3)))\n}\n".into(),
-                "pair-with-int" => "fn f[T](x: T, n: int32) -> int32 {\n    if n < 1 { 0 } else { 1 + f((x, n), n - 1) }\n}\n\nfn main() {\n    string_println(int32_to_string(f(1, 3)))\n}\n".into(),
-                "mutual" => "fn f[T](x: T, n: int32) -> int32 {\n    if n < 1 { 0 } else { 1 + g((x, x), n - 1) }\n}\nfn g[U](y: U, n: int32) -> int32 { f(y, n) }\n\nfn main() {\n    string_println(int32_to_string(f(1, 3)))\n}\n".into(),
-                "through-method" => "struct Bx[T] { v: T }\nimpl[T] Bx[T] { fn grow(self: Bx[T], n: int32) -> int32 { if n < 1 { 0 } else { let b: Bx[(T, T)] = Bx { v: (self.v, self.v) }; 1 + b.grow(n - 1) } } }\n\nfn main() {\n    let b: Bx[int32] = Bx { v: 1 };\n    string_println(int32_to_string(b.grow(3)))\n}\n".into(),
-                "finite-depth-12" => finite(12),
-                "finite-depth-40" => finite(40),
-                _ => "fn f[T](x: T, n: int32) -> int32 {\n    if n < 1 { 0 } else { 1 + f((x, x), n - 1) }\n}\n\nfn main() {\n    string_println(int32_to_string(f(1, 3)))\n}\n".into(),
+            // (text, what it prints if it is accepted and the output is pinned, whether it has to be accepted)
+            let (text_owned, pinned, must_accept): (String, Option<String>, bool) = match a {
+                "vec-wrapping" => ("fn f[T](x: T, n: int32) -> int32 {\n    if n < 1 { 0 } else { let v: Vec[T] = vec_new(); 1 + f(vec_push(v, x), n - 1) }\n}\n\nfn main() {\n    string_println(int32_to_string(f(1, 3)))\n}\n".into(), None, false),
+                "opt-wrapping" => ("enum Opt[T] { Non, Som(T) }\nfn f[T](x: T, n: int32) -> int32 {\n    if n < 1 { 0 } else { 1 + f(Opt::Som(x), n - 1) }\n}\n\nfn main() {\n    string_println(int32_to_string(f(1, 3)))\n}\n".into(), None, false),
+                "pair-with-int" => ("fn f[T](x: T, n: int32) -> int32 {\n    if n < 1 { 0 } else { 1 + f((x, n), n - 1) }\n}\n\nfn main() {\n    string_println(int32_to_string(f(1, 3)))\n}\n".into(), None, false),
+                "mutual" => ("fn f[T](x: T, n: int32) -> int32 {\n    if n < 1 { 0 } else { 1 + g((x, x), n - 1) }\n}\nfn g[U](y: U, n: int32) -> int32 { f(y, n) }\n\nfn main() {\n    string_println(int32_to_string(f(1, 3)))\n}\n".into(), None, false),
+                "through-method" => ("struct Bx[T] { v: T }\nimpl[T] Bx[T] { fn grow(self: Bx[T], n: int32) -> int32 { if n < 1 { 0 } else { let b: Bx[(T, T)] = Bx { v: (self.v, self.v) }; 1 + b.grow(n - 1) } } }\n\nfn main() {\n    let b: Bx[int32] = Bx { v: 1 };\n    string_println(int32_to_string(b.grow(3)))\n}\n".into(), None, false),
+                "finite-depth-12" => (finite(12), Some("12\n".into()), true),
+                "finite-depth-40" => (finite(40), Some("40\n".into()), true),
+                // types that mention themselves at a larger instance: the set of instances is infinite
+                "type-growing-enum" => ("struct Bx[T] { v: T }\nenum Nest[T] { Leaf(T), Node(Nest[Bx[T]]) }\nfn main() {\n    let n: Nest[int32] = Leaf(1);\n    string_println(match n { Leaf(k) => int32_to_string(k), Node(m) => \"node\" })\n}\n".into(), Some("1\n".into()), false),
+                "type-growing-struct" => ("enum Opt[T] { Non, Som(T) }\nstruct Grow[T] { v: T, next: Opt[Grow[(T, T)]] }\nfn main() {\n    let g: Grow[int32] = Grow { v: 1, next: Non };\n    string_println(int32_to_string(g.v))\n}\n".into(), Some("1\n".into()), false),
+                "type-growing-mutual" => ("enum Opt[T] { Non, Som(T) }\nstruct Aa[T] { v: T, b: Opt[Bb[Vec[T]]] }\nstruct Bb[T] { a: Opt[Aa[T]] }\nfn main() {\n    let a: Aa[int32] = Aa { v: 1, b: Non };\n    string_println(int32_to_string(a.v))\n}\n".into(), Some("1\n".into()), false),
+                "type-growing-unused" => ("struct Bx[T] { v: T }\nenum Nest[T] { Leaf(T), Node(Nest[Bx[T]]) }\nfn main() {\n    string_println(\"1\")\n}\n".into(), Some("1\n".into()), true),
+                // regular recursion: one instance
+                "type-regular-recursion" => ("enum List[T] { Nil, Cons(T, List[T]) }\nfn len[T](l: List[T]) -> int32 { match l { Nil => 0, Cons(h, t) => 1 + len(t) } }\nfn main() {\n    let l: List[int32] = Cons(1, Cons(2, Nil));\n    string_println(int32_to_string(len(l)))\n}\n".into(), Some("2\n".into()), true),
+                "type-regular-permuting" => ("enum Opt[T] { Non, Som(T) }\nstruct Sw[A, B] { a: A, next: Opt[Sw[B, A]] }\nfn main() {\n    let inner: Sw[bool, int32] = Sw { a: true, next: Non };\n    let s: Sw[int32, bool] = Sw { a: 2, next: Som(inner) };\n    string_println(int32_to_string(s.a))\n}\n".into(), Some("2\n".into()), true),
+                // a parameter of the impl block that an associated function's signature never mentions
+                "associated-fn-impl-param-unmentioned" => ("struct Bx[T] { v: T }\nimpl[T] Bx[T] { fn hello() -> string { let w: Vec[T] = vec_new(); \"h\" + int32_to_string(vec_len(w)) } }\nfn main() {\n    string_println(Bx::hello())\n}\n".into(), Some("h0\n".into()), false),
+                "associated-fn-impl-param-in-result" => ("struct Bx[T] { v: T }\nimpl[T] Bx[T] { fn make(x: T) -> Bx[T] { Bx { v: x } } }\nfn main() {\n    let b = Bx::make(4);\n    string_println(int32_to_string(b.v))\n}\n".into(), Some("4\n".into()), true),
+                "associated-fn-impl-param-in-result-only" => ("struct Bx[T] { v: Vec[T] }\nimpl[T] Bx[T] { fn empty() -> Bx[T] { Bx { v: vec_new() } } }\nfn main() {\n    let b: Bx[int32] = Bx::empty();\n    string_println(int32_to_string(vec_len(b.v)))\n}\n".into(), Some("0\n".into()), true),
+                _ => ("fn f[T](x: T, n: int32) -> int32 {\n    if n < 1 { 0 } else { 1 + f((x, x), n - 1) }\n}\n\nfn main() {\n    string_println(int32_to_string(f(1, 3)))\n}\n".into(), None, false),
             };
             let text = text_owned.as_str();
             let path = ctx.scratch.single_path();
@@ -681,23 +697,24 @@ impl Family for Generics {
             match crate::oracle::compile_at(&path, text) {
                 crate::oracle::CompileOutcome::Ok(c) => {
                     rep.tag("polyrec:accepted");
-                    // an accepted program runs: a finite chain prints its length
-                    if a.starts_with("finite-depth-") {
-                        let want = format!("{}\n", a.trim_start_matches("finite-depth-"));
-                        let go = crate::oracle::go_text(&c).unwrap_or_default();
-                        drop(c);
-                        match crate::projects::run_go(&go, FUEL) {
-                            Ok(o) if lossy(&o.stdout) == want => rep.tag("polyrec:finite-chain-agrees"),
-                            Ok(o) => rep.findings.push(Finding { property: "C07", class: "sem.stdout".into(), site: format!("template=polymorphic-recursion;a={}", a), detail: format!("expected {:?} got {:?}", want, lossy(&o.stdout)), replay: json!({"kind": "text", "text": text, "oracle": "total"}) }),
-                            Err(m) if m.starts_with("machinery") => rep.tag("machinery:go-unsupported"),
-                            Err(m) => rep.findings.push(Finding { property: "C07", class: "go.invalid".into(), site: format!("template=polymorphic-recursion;a={};goerr={}", a, normalise_msg(&m)), detail: m, replay: json!({"kind": "text", "text": text, "oracle": "total"}) }),
+                    // an accepted program is a Go program, and prints what it means
+                    let go = crate::oracle::go_text(&c).unwrap_or_default();
+                    drop(c);
+                    match crate::projects::run_go(&go, FUEL) {
+                        Ok(o) if pinned.as_ref().map(|w| lossy(&o.stdout) == *w).unwrap_or(true) => rep.tag("polyrec:accepted-agrees"),
+                        Ok(o) => rep.findings.push(Finding { property: "C07", class: "sem.stdout".into(), site: format!("template=polymorphic-recursion;a={}", a), detail: format!("expected {:?} got {:?}", pinned, lossy(&o.stdout)), replay: json!({"kind": "text", "text": text, "oracle": "total"}) }),
+                        Err(m) if m.starts_with("machinery") => rep.tag("machinery:go-unsupported"),
+                        Err(m) => {
+                            for p in ["C07", "C02"] {
+                                rep.findings.push(Finding { property: p, class: m.split(':').next().unwrap_or("go.invalid").to_string(), site: format!("template=polymorphic-recursion;a={};goerr={}", a, normalise_msg(&m)), detail: m.clone(), replay: json!({"kind": "text", "text": text, "oracle": "total"}) });
+                            }
                         }
                     }
                 }
                 crate::oracle::CompileOutcome::Err(e) => {
                     rep.tag("polyrec:rejected");
-                    if a.starts_with("finite-depth-") {
-                        let (stage, msg) = describe_err(&e);
+                    let (stage, msg) = describe_err(&e);
+                    if must_accept {
                         rep.findings.push(Finding { property: "C07", class: format!("compile.rejected.{}", stage), site: format!("template=polymorphic-recursion;a={};msg={}", a, normalise_msg(&msg)), detail: msg, replay: json!({"kind": "text", "text": text, "oracle": "total"}) });
                     }
                 }
